@@ -73,19 +73,24 @@ fn main() {
             } else {
                 (0..count).map(|_| server::gen_script(&mut master.fork())).collect()
             };
-            let results: Vec<Vec<String>> = std::thread::scope(|sc| {
+            let results_notes: Vec<(Vec<String>, Vec<String>)> = std::thread::scope(|sc| {
                 let hs: Vec<_> = scripts.iter().map(|ops| sc.spawn(move || {
                     let mut s = server::Script::new();
-                    ops.iter().map(|l| s.exec(l)).collect::<Vec<String>>()
+                    let outs = ops.iter().map(|l| s.exec(l)).collect::<Vec<String>>();
+                    (outs, s.notes.clone())
                 })).collect();
                 hs.into_iter().map(|h| h.join().unwrap()).collect()
             });
+            let results: Vec<Vec<String>> = results_notes.iter().map(|x| x.0.clone()).collect();
             let mut r = seq::Runner::new();
             let mut ends: std::collections::BTreeMap<String, u64> = Default::default();
             for (ops, outs) in scripts.iter().zip(results.iter()) {
                 r.prog_start.push(r.ops.len());
                 // P17 on the implementation's own answers
                 let prog = r.prog_start.len() - 1;
+                for n in &results_notes[prog].1 {
+                    r.violations.push((prog, vec!["C17"], r.ops.len(), n.clone()));
+                }
                 let mut limit = 0usize;
                 let mut open: std::collections::BTreeSet<usize> = Default::default();
                 let mut last_served: Vec<usize> = vec![];
